@@ -111,6 +111,8 @@ void solver_round(vt::Rng& rng)
     const auto ids = std::vector<std::string>{"gd",  "cgd-pr", "cgd-n",     "lbfgs", "bfgs", "dfp",   "sr1",  "fletcher", "hoshino", "osga",
                                                "sgm", "cocob",  "ellipsoid", "asga2", "sda",  "wda",   "pgm",  "dgm",      "fgm",     "rqb",
                                                "fpba1", "fpba2", "cgd-hs", "cgd-fr", "cgd-cd", "cgd-ls", "cgd-dy", "cgd-dycd", "cgd-dyhs", "cgd-frpr", "asga4"};
+    int64_t    ils  = 0; // index among the line-search solvers
+    const auto off0 = rng.range(0, 11), offk = rng.range(0, 19);
     for (const auto& id : ids)
     {
         const auto solver = solver_t::all().get(id);
@@ -143,6 +145,34 @@ void solver_round(vt::Rng& rng)
                 {
                     const auto function = fs[static_cast<size_t>(task)]->clone(); // each call with its own function object
                     return hash_state(shared.minimize(*function, x0s[static_cast<size_t>(task)], make_null_logger()));
+                });
+        if (solver->type() != solver_type::line_search)
+        {
+            continue;
+        }
+        // the same shared solver with every other line-search prototype (step length initialisation x step length strategy): the
+        // prototypes keep a history, the solver must clone them per call. The kinds cycle over the line-search solvers, so every
+        // kind is shared in every round.
+        const auto ids0 = lsearch0_t::all().ids();
+        const auto idsk = lsearchk_t::all().ids();
+        if (ids0.empty() || idsk.empty())
+        {
+            continue;
+        }
+        const auto id0 = ids0[static_cast<size_t>(ils + off0) % ids0.size()];
+        const auto idk = idsk[static_cast<size_t>(ils + offk) % idsk.size()];
+        ++ils;
+        const auto solver2 = solver_t::all().get(id);
+        solver2->parameter("solver::max_evals") = 200;
+        solver2->parameter("solver::epsilon")   = solver->parameter("solver::epsilon").value<scalar_t>();
+        solver2->lsearch0(id0);
+        solver2->lsearchk(idk);
+        const solver_t& shared2 = *solver2;
+        compare("minimize:" + id + ":" + id0 + ":" + idk, ntasks, (rng.coin(1, 4) ? rng.range(9, 16) : rng.range(2, 8)), rng,
+                [&](int64_t task)
+                {
+                    const auto function = fs[static_cast<size_t>(task)]->clone();
+                    return hash_state(shared2.minimize(*function, x0s[static_cast<size_t>(task)], make_null_logger()));
                 });
     }
 }
@@ -190,21 +220,143 @@ void loss_round(vt::Rng& rng)
     }
 }
 
-void dataset_round(vt::Rng& rng)
+// ---- random (seeded) model configurations: the same stream gives the same configuration
+// (with_dtree: decision trees only in the models used for shared predictions. In the fit-invariance cases they are left out - see the
+//  assumptions of the check: inside small tree nodes different features induce the same partition of the node's samples, their scores
+//  are equal in exact arithmetic and differ by rounding only, so the feature chosen depends on the last bits of the gradients and those
+//  on the order in which the per-thread partial sums of the scaling objective are added up. VERIF_C18_DTREE=1 puts them back.)
+std::string configure_gboost(vt::Rng& prng, gboost_model_t& model, const bool legacy, const bool with_dtree = false)
 {
-    auto        problem = vt::make_problem(rng, true, true);
-    const auto& dataset = *problem.dataset;
-    const auto  n       = dataset.samples();
-    std::vector<indices_t> lists;
-    for (int k = 0; k < 4; ++k)
+    rwlearners_t prototypes;
+    std::string  desc;
+    if (legacy)
     {
-        indices_t list(rng.range(1, 2 * n));
-        for (auto& s : list)
+        model.parameter("gboost::subsample") = prng.coin() ? "off" : "bootstrap";
+        model.parameter("gboost::shrinkage") = prng.coin() ? "off" : "global";
+        for (const auto* id : {"stump", "affine", "dense-table"})
         {
-            s = rng.range(0, n - 1);
+            prototypes.emplace_back(wlearner_t::all().get(id));
         }
-        lists.push_back(list);
+        desc = "legacy";
     }
+    else
+    {
+        // (fit invariance: the loss / gradient weighted bootstraps only with VERIF_C18_WEIGHTED=1, see the assumptions of the check)
+        const auto weighted  = with_dtree || std::getenv("VERIF_C18_WEIGHTED") != nullptr;
+        const auto subsample = weighted ? prng.pick(std::vector<std::string>{"off", "subsample", "bootstrap", "wei_loss_bootstrap", "wei_grad_bootstrap"})
+                                        : prng.pick(std::vector<std::string>{"off", "subsample", "bootstrap", "subsample", "bootstrap"});
+        const auto shrinkage = prng.pick(std::vector<std::string>{"off", "global", "local", "local"});
+        const auto wscale    = prng.pick(std::vector<std::string>{"gboost", "tboost"});
+        model.parameter("gboost::subsample")       = subsample;
+        model.parameter("gboost::subsample_ratio") = prng.pick(std::vector<scalar_t>{0.5, 0.75, 1.0});
+        model.parameter("gboost::shrinkage")       = shrinkage;
+        model.parameter("gboost::wscale")          = wscale;
+        model.parameter("gboost::batch")           = prng.pick(std::vector<int64_t>{10, 16, 100});
+        desc = subsample + "," + shrinkage + "," + wscale + ":";
+        // a pool of 1..4 weak learners out of the eight (seven) kinds
+        std::vector<std::string> ids{"affine", "stump", "hinge", "dense-table", "kbest-table", "ksplit-table", "dstep-table"};
+        if (with_dtree || std::getenv("VERIF_C18_DTREE") != nullptr)
+        {
+            ids.emplace_back("dtree");
+        }
+        for (size_t i = ids.size() - 1; i > 0; --i)
+        {
+            std::swap(ids[i], ids[static_cast<size_t>(prng.range(0, static_cast<int64_t>(i)))]);
+        }
+        ids.resize(static_cast<size_t>(prng.range(1, 4)));
+        if (!with_dtree && std::getenv("VERIF_C18_TABLES") == nullptr)
+        {
+            // (fit invariance: at most one kind of look-up table per pool. The table kinds overlap - a k-best table with every bin is the
+            // dense table and a k-split table with every bin, with one bin it is the discrete step - so two kinds often reach the same
+            // score in exact arithmetic by different formulas; which one wins is then decided by rounding, that is by the last bits of the
+            // gradients, and the two behave differently outside the (sub-)sample they were fitted on. See the assumptions of the check.)
+            auto has_table = false;
+            for (auto it = ids.begin(); it != ids.end();)
+            {
+                const auto is_table = it->find("-table") != std::string::npos;
+                it                  = (is_table && has_table) ? ids.erase(it) : (it + 1);
+                has_table           = has_table || is_table;
+            }
+            // (... and at least one weak learner over the scalar features: boosting with tables only converges within a few rounds on
+            // the few categorical features - every bin mean fitted exactly - and then the optimal scale of the next weak learner is zero
+            // in exact arithmetic; the library tests the computed scale (+-1e-16) against the machine epsilon to stop or go on.)
+            if (std::getenv("VERIF_C18_ALONE") == nullptr)
+            {
+                const auto extra = prng.pick(std::vector<std::string>{"stump", "hinge", "affine"});
+                if (ids.size() == 1U && has_table)
+                {
+                    ids.push_back(extra);
+                }
+            }
+        }
+        const auto criterion = prng.pick(std::vector<std::string>{"rss", "aic", "aicc", "bic"});
+        for (const auto& id : ids)
+        {
+            auto wlearner = wlearner_t::all().get(id);
+            if (wlearner == nullptr)
+            {
+                continue;
+            }
+            wlearner->parameter("wlearner::criterion") = criterion;
+            if (id == "dtree")
+            {
+                wlearner->parameter("wlearner::dtree::max_depth") = prng.range(1, 3);
+                wlearner->parameter("wlearner::dtree::min_split") = prng.range(1, 5);
+            }
+            desc += id + " ";
+            prototypes.emplace_back(std::move(wlearner));
+        }
+        desc += criterion;
+    }
+    model.prototypes(std::move(prototypes));
+    return desc;
+}
+
+std::string configure_linear(vt::Rng& prng, linear_t& model, const bool legacy)
+{
+    if (legacy)
+    {
+        return "legacy";
+    }
+    // (batches smaller than the number of samples - partial sums per pool thread, re-associated - only with the smooth regularisers:
+    // the bundle method used for lasso / elastic net amplifies last-bit differences of the objective beyond the 1e-5 of the property
+    // in the per-trial tuning values, like osga and mae + lbfgs, see the assumptions of the check)
+    const auto smooth  = model.type_id() == "ordinary" || model.type_id() == "ridge";
+    const auto scaling = prng.pick(std::vector<std::string>{"none", "mean", "minmax", "standard"});
+    const auto batch   = smooth ? prng.pick(std::vector<int64_t>{10, 16, 100}) : int64_t{100};
+    model.parameter("linear::scaling") = scaling;
+    model.parameter("linear::batch")   = batch;
+    return scaling + "," + std::to_string(batch);
+}
+
+std::string configure_tuning(vt::Rng& prng, rsplitter_t& splitter, rtuner_t& tuner, const bool legacy)
+{
+    if (legacy)
+    {
+        splitter = splitter_t::all().get("k-fold");
+        splitter->parameter("splitter::folds") = 3;
+        splitter->parameter("splitter::seed")  = 7;
+        tuner = tuner_t::all().get("surrogate"); // (the default of the fit parameters)
+        return "k-fold/3,surrogate";
+    }
+    const auto sid   = prng.coin(1, 3) ? "random" : "k-fold";
+    const auto folds = prng.range(2, 5);
+    const auto tid   = prng.coin() ? "local-search" : "surrogate";
+    splitter = splitter_t::all().get(sid);
+    splitter->parameter("splitter::folds") = folds;
+    splitter->parameter("splitter::seed")  = prng.range(0, 1024);
+    if (std::string(sid) == "random")
+    {
+        splitter->parameter("splitter::random::train_per") = prng.range(50, 80);
+    }
+    tuner = tuner_t::all().get(tid);
+    tuner->parameter("tuner::max_evals") = prng.pick(std::vector<int64_t>{10, 12, 20});
+    return std::string(sid) + "/" + std::to_string(folds) + "," + tid;
+}
+
+// one shared const dataset used concurrently: every thread with its own buffers / iterators
+void dataset_share(vt::Rng& rng, const dataset_t& dataset, const std::vector<indices_t>& lists)
+{
     compare("dataset", 4, (rng.coin(1, 4) ? rng.range(9, 16) : rng.range(2, 8)), rng,
             [&](int64_t task)
             {
@@ -250,6 +402,196 @@ void dataset_round(vt::Rng& rng)
                 return h;
             });
 
+    // select() of every feature kind (single-label, multi-label, scalar, structured) and the feature-wise loops of select_iterator_t
+    // (all features of a kind, one feature, a given list of features): the values every callback receives, per feature
+    indices_t kinds[4];
+    {
+        std::vector<tensor_size_t> of[4];
+        for (tensor_size_t f = 0; f < dataset.features(); ++f)
+        {
+            const auto feature = dataset.feature(f);
+            of[feature.is_sclass() ? 0 : (feature.is_mclass() ? 1 : (feature.is_scalar() ? 2 : 3))].push_back(f);
+        }
+        for (int k = 0; k < 4; ++k)
+        {
+            kinds[k].resize(static_cast<tensor_size_t>(of[k].size()));
+            std::reverse_copy(of[k].begin(), of[k].end(), kinds[k].begin()); // the explicit feature lists: in reverse order
+        }
+    }
+    compare("dataset:select", 4, (rng.coin(1, 4) ? rng.range(9, 16) : rng.range(2, 8)), rng,
+            [&](int64_t task)
+            {
+                hash_t      h;
+                const auto& samples = lists[static_cast<size_t>(task)];
+                for (tensor_size_t f = 0; f < dataset.features(); ++f)
+                {
+                    const auto feature = dataset.feature(f);
+                    if (feature.is_sclass())
+                    {
+                        sclass_mem_t buffer;
+                        h.tensor(dataset.select(samples, f, buffer));
+                    }
+                    else if (feature.is_mclass())
+                    {
+                        mclass_mem_t buffer;
+                        h.tensor(dataset.select(samples, f, buffer));
+                    }
+                    else if (feature.is_scalar())
+                    {
+                        scalar_mem_t buffer;
+                        h.tensor(dataset.select(samples, f, buffer));
+                    }
+                    else if (feature.is_struct())
+                    {
+                        struct_mem_t buffer;
+                        h.tensor(dataset.select(samples, f, buffer));
+                    }
+                }
+                const auto it = select_iterator_t{dataset};
+                // (the callbacks run on the dataset's pool threads, in any order: one slot per (pass, feature))
+                std::vector<uint64_t> slots(static_cast<size_t>(3 * dataset.features()), 0U);
+                for (int pass = 0; pass < 3; ++pass)
+                {
+                    const auto note = [&](tensor_size_t f, const auto& values)
+                    {
+                        hash_t hf;
+                        hf.tensor(values);
+                        slots[static_cast<size_t>(pass * dataset.features() + f)] ^= hf.h; // (a feature visited twice would cancel out)
+                    };
+                    const auto on_sclass = sclass_callback_t{[&](tensor_size_t f, size_t, sclass_cmap_t values) { note(f, values); }};
+                    const auto on_mclass = mclass_callback_t{[&](tensor_size_t f, size_t, mclass_cmap_t values) { note(f, values); }};
+                    const auto on_scalar = scalar_callback_t{[&](tensor_size_t f, size_t, scalar_cmap_t values) { note(f, values); }};
+                    const auto on_struct = struct_callback_t{[&](tensor_size_t f, size_t, struct_cmap_t values) { note(f, values); }};
+                    if (pass == 0)
+                    {
+                        it.loop(samples, on_sclass);
+                        it.loop(samples, on_mclass);
+                        it.loop(samples, on_scalar);
+                        it.loop(samples, on_struct);
+                    }
+                    else if (pass == 1)
+                    {
+                        it.loop(samples, kinds[0], on_sclass);
+                        it.loop(samples, kinds[1], on_mclass);
+                        it.loop(samples, kinds[2], on_scalar);
+                        it.loop(samples, kinds[3], on_struct);
+                    }
+                    else
+                    {
+                        for (int k = 0; k < 4; ++k)
+                        {
+                            if (kinds[k].size() == 0)
+                            {
+                                continue;
+                            }
+                            const auto f = kinds[k](task % kinds[k].size());
+                            switch (k)
+                            {
+                            case 0: it.loop(samples, f, on_sclass); break;
+                            case 1: it.loop(samples, f, on_mclass); break;
+                            case 2: it.loop(samples, f, on_scalar); break;
+                            default: it.loop(samples, f, on_struct); break;
+                            }
+                        }
+                    }
+                }
+                h.bytes(slots.data(), sizeof(uint64_t) * slots.size());
+                return h;
+            });
+
+    // targets_iterator_t / flatten_iterator_t loops (targets, inputs, inputs + targets), every scaling mode, cached or not
+    compare("dataset:iterators", 8, (rng.coin(1, 4) ? rng.range(9, 16) : rng.range(2, 8)), rng,
+            [&](int64_t task)
+            {
+                hash_t      h;
+                const auto& samples = lists[static_cast<size_t>(task % 4)];
+                const auto  scaling = std::vector<scaling_type>{scaling_type::none, scaling_type::mean, scaling_type::minmax, scaling_type::standard}[static_cast<size_t>((task + task / 4) % 4)];
+                const auto  batch   = std::vector<tensor_size_t>{1, 7, 100, 5, 3, 16, 2, 1000}[static_cast<size_t>(task)];
+                const auto  cached  = task >= 4;
+                const auto  m       = samples.size();
+
+                auto tit = targets_iterator_t{dataset, samples};
+                tit.batch(batch);
+                tit.scaling(scaling);
+                if (cached)
+                {
+                    tit.cache_targets(std::numeric_limits<tensor_size_t>::max());
+                }
+                tensor4d_t targets(cat_dims(m, dataset.target_dims()));
+                targets.full(-7.0);
+                tit.loop([&](tensor_range_t range, size_t, tensor4d_cmap_t values) { targets.slice(range) = values; });
+                h.tensor(targets);
+
+                auto fit = flatten_iterator_t{dataset, samples};
+                fit.batch(batch);
+                fit.scaling(scaling);
+                if (cached)
+                {
+                    fit.cache_flatten(std::numeric_limits<tensor_size_t>::max());
+                    if (task % 2 == 0)
+                    {
+                        fit.cache_targets(std::numeric_limits<tensor_size_t>::max());
+                    }
+                }
+                tensor2d_t inputs(m, dataset.columns());
+                inputs.full(-7.0);
+                fit.loop(flatten_callback_t{[&](tensor_range_t range, size_t, tensor2d_cmap_t values) { inputs.slice(range) = values; }});
+                h.tensor(inputs);
+                inputs.full(-5.0);
+                targets.full(-5.0);
+                fit.loop(flatten_targets_callback_t{[&](tensor_range_t range, size_t, tensor2d_cmap_t values, tensor4d_cmap_t tvalues)
+                                                    {
+                                                        inputs.slice(range)  = values;
+                                                        targets.slice(range) = tvalues;
+                                                    }});
+                h.tensor(inputs);
+                h.tensor(targets);
+                return h;
+            });
+}
+
+void dataset_round(vt::Rng& rng)
+{
+    auto        problem = vt::make_problem(rng, true, true);
+    const auto& dataset = *problem.dataset;
+    const auto  n       = dataset.samples();
+    const auto make_lists = [&](const tensor_size_t count)
+    {
+        std::vector<indices_t> lists;
+        for (int k = 0; k < 4; ++k)
+        {
+            indices_t list(rng.range(1, 2 * count));
+            for (auto& s : list)
+            {
+                s = rng.range(0, count - 1);
+            }
+            lists.push_back(list);
+        }
+        return lists;
+    };
+    const auto lists = make_lists(n);
+    dataset_share(rng, dataset, lists);
+    // ... and a dataset with features of all four kinds (a sixth of the random problems)
+    const auto all_kinds = [](const dataset_t& ds)
+    {
+        bool has[4] = {false, false, false, false};
+        for (tensor_size_t f = 0; f < ds.features(); ++f)
+        {
+            const auto feature = ds.feature(f);
+            has[feature.is_sclass() ? 0 : (feature.is_mclass() ? 1 : (feature.is_scalar() ? 2 : 3))] = true;
+        }
+        return has[0] && has[1] && has[2] && has[3];
+    };
+    for (int tries = 0; tries < 60 && !all_kinds(dataset); ++tries)
+    {
+        const auto rich = vt::make_problem(rng, true, true);
+        if (all_kinds(*rich.dataset))
+        {
+            dataset_share(rng, *rich.dataset, make_lists(rich.dataset->samples()));
+            break;
+        }
+    }
+
     // predict on a shared fitted model
     const auto loss    = loss_t::all().get(problem.classification ? "s-classnll" : "mse");
     const auto samples = arange(0, n);
@@ -281,6 +623,50 @@ void dataset_round(vt::Rng& rng)
                     h.tensor(lshared.predict(dataset, lists[static_cast<size_t>(task)]));
                     return h;
                 });
+    }
+    // ... and on models of the varied configurations of the fit cases below (any weak learner pool, sub-sampling, shrinkage, scaling of
+    // the weak learners; any regulariser and scaling of the inputs)
+    for (int k = 0; k < 2; ++k)
+    {
+        vt::Rng crng(rng.next());
+        auto    vboost = gboost_model_t{};
+        vboost.parameter("gboost::max_rounds") = 10;
+        vboost.parameter("gboost::patience")   = 3;
+        const auto  desc    = configure_gboost(crng, vboost, false, true);
+        rsplitter_t splitter;
+        rtuner_t    tuner;
+        configure_tuning(crng, splitter, tuner, false);
+        vboost.fit(dataset, samples, *loss, ml::params_t{}.splitter(*splitter).tuner(*tuner));
+        const gboost_model_t& vshared = vboost;
+        compare("predict:gboost:" + desc, 4, (rng.coin(1, 4) ? rng.range(9, 16) : rng.range(2, 8)), rng,
+                [&](int64_t task)
+                {
+                    hash_t h;
+                    h.tensor(vshared.predict(dataset, lists[static_cast<size_t>(task)]));
+                    return h;
+                });
+        if (!problem.classification)
+        {
+            const auto id     = crng.pick(std::vector<std::string>{"ordinary", "ridge", "lasso", "elastic_net"});
+            auto       linear = linear_t::all().get(id);
+            if (linear == nullptr)
+            {
+                continue;
+            }
+            const auto ldesc  = configure_linear(crng, *linear, false);
+            const auto smooth = id == "ordinary" || id == "ridge";
+            auto       solver = solver_t::all().get(smooth ? "lbfgs" : "fpba1");
+            solver->parameter("solver::max_evals") = 500;
+            linear->fit(dataset, samples, *loss, ml::params_t{}.solver(*solver).splitter(*splitter).tuner(*tuner));
+            const linear_t& vlshared = *linear;
+            compare("predict:linear:" + id + "," + ldesc, 4, (rng.coin(1, 4) ? rng.range(9, 16) : rng.range(2, 8)), rng,
+                    [&](int64_t task)
+                    {
+                        hash_t h;
+                        h.tensor(vlshared.predict(dataset, lists[static_cast<size_t>(task)]));
+                        return h;
+                    });
+        }
     }
 }
 
@@ -366,7 +752,7 @@ void fit_case(const uint64_t pseed, const bool is_gboost, const std::string& lin
     std::vector<indices_t>  features;
     std::vector<std::vector<double>> tunings; // per variant: trials, their hyper-parameters and (train, valid) x (errors, losses) values
     std::vector<std::string> sigs; // per variant: the sequence of (weak learner, selected features) - for the replay artefact
-    std::string             desc;
+    std::string             desc, config;
     for (int variant = 0; variant < 3; ++variant)
     {
         vt::Rng    prng(pseed); // identical problem in every variant
@@ -382,9 +768,12 @@ void fit_case(const uint64_t pseed, const bool is_gboost, const std::string& lin
         dataset.add<scalar_identity_generator_t>();
         dataset.add<struct_identity_generator_t>();
         const auto samples = arange(0, dataset.samples());
-        auto       splitter = splitter_t::all().get("k-fold");
-        splitter->parameter("splitter::folds") = 3;
-        splitter->parameter("splitter::seed")  = 7;
+        // a quarter of the cases in the fixed configuration of the first version of this driver (3-fold, stump / affine / dense table,
+        // no or plain bootstrap sub-sampling, no or global shrinkage, default scaling), the others anywhere in the configuration space
+        const auto  legacy = prng.coin(1, 4);
+        rsplitter_t splitter;
+        rtuner_t    tuner;
+        const auto  tdesc = configure_tuning(prng, splitter, tuner, legacy);
         if (is_gboost)
         {
             const auto loss   = loss_t::all().get(problem.classification ? "s-logistic" : "mse");
@@ -392,15 +781,9 @@ void fit_case(const uint64_t pseed, const bool is_gboost, const std::string& lin
             auto       model  = gboost_model_t{};
             model.parameter("gboost::max_rounds") = 15;
             model.parameter("gboost::patience")   = 3;
-            model.parameter("gboost::subsample")  = prng.coin() ? "off" : "bootstrap";
-            model.parameter("gboost::seed")       = 11;
-            model.parameter("gboost::shrinkage")  = prng.coin() ? "off" : "global";
-            rwlearners_t prototypes;
-            prototypes.emplace_back(wlearner_t::all().get("stump"));
-            prototypes.emplace_back(wlearner_t::all().get("affine"));
-            prototypes.emplace_back(wlearner_t::all().get("dense-table"));
-            model.prototypes(prototypes);
-            auto params = ml::params_t{}.solver(*solver).splitter(*splitter);
+            model.parameter("gboost::seed")       = 11; // (sub-sampling with a fixed seed, as the property says)
+            config = configure_gboost(prng, model, legacy) + ";" + tdesc;
+            auto params = ml::params_t{}.solver(*solver).splitter(*splitter).tuner(*tuner);
             if (const auto* dir = std::getenv("VERIF_FIT_LOG"); dir != nullptr) // diagnosis only: the library's own log, per variant
             {
                 params.logger(make_file_logger(std::string(dir) + "/fit_" + std::to_string(icase) + "_" + std::to_string(variant) + ".log"));
@@ -432,7 +815,8 @@ void fit_case(const uint64_t pseed, const bool is_gboost, const std::string& lin
             const auto smooth = model->type_id() == "ordinary" || model->type_id() == "ridge";
             auto       solver = solver_t::all().get(smooth ? "lbfgs" : "fpba1");
             solver->parameter("solver::max_evals") = 2000;
-            tunings.push_back(tuning_of(model->fit(dataset, samples, *loss, ml::params_t{}.solver(*solver).splitter(*splitter))));
+            config = configure_linear(prng, *model, legacy) + ";" + tdesc;
+            tunings.push_back(tuning_of(model->fit(dataset, samples, *loss, ml::params_t{}.solver(*solver).splitter(*splitter).tuner(*tuner))));
             predictions.push_back(model->predict(dataset, samples));
             features.push_back(indices_t{});
             sigs.emplace_back();
@@ -444,7 +828,7 @@ void fit_case(const uint64_t pseed, const bool is_gboost, const std::string& lin
     for (size_t v = 1; v < predictions.size(); ++v)
     {
         vt::put(vt::J("Fit").i("case", icase).s("model", desc).i("variant", static_cast<int64_t>(v)).b("sameFeatures", features[v] == features[0] && sigs[v] == sigs[0]).b(
-            "closePredictions", close(predictions[v], predictions[0])).s("pseed", std::to_string(pseed)).s("linear", linear_id).i("maxrel_e9", static_cast<int64_t>(std::min(1e9 * maxrel(predictions[v], predictions[0]), 2e9))).s("model0", sigs[0]).s("modelv", sigs[v]).b("sameTuning", tuning_maxrel(tunings[v], tunings[0]) <= 1e-5).i(
+            "closePredictions", close(predictions[v], predictions[0])).s("pseed", std::to_string(pseed)).s("linear", linear_id).s("config", config).i("maxrel_e9", static_cast<int64_t>(std::min(1e9 * maxrel(predictions[v], predictions[0]), 2e9))).s("model0", sigs[0]).s("modelv", sigs[v]).b("sameTuning", tuning_maxrel(tunings[v], tunings[0]) <= 1e-5).i(
             "tuning_maxrel_e9", static_cast<int64_t>(std::min(1e9 * tuning_maxrel(tunings[v], tunings[0]), 2e9))));
     }
 }
